@@ -230,7 +230,7 @@ def check_introspection_failures(status_i: int, json_ok: bool, body: int, raise_
         sch.httpx.post = old
         sch.get_introspection_query = old_q
     sent_ok = len(calls) == 1 and calls[0][0] == "http://h/graphql" and calls[0][1].get("headers") == {"A": "1"} and calls[0][1].get("verify") == (True if verify else False) \
-        and isinstance(calls[0][1].get("json", {}).get("query"), str)
+        and isinstance(calls[0][1].get("json", {}).get("query"), str) and not calls[0][1].get("follow_redirects")  # a redirect is a failure, not a hop
     should_succeed = rk == 0 and (200 <= status <= 299) and json_ok and b in VALID
     if should_succeed:
         return sent_ok and outcome == ("ok", BODIES[b]["data"])
